@@ -32,6 +32,12 @@ def _perms(n):
 
 
 def scenario(job):
+    if job.get("mode") == "group":
+        # the request objects the real Coordinator / ConsumerGroup / Consumer build on every path of the group protocol
+        # (including the re-joins after each error reply) are encoded by the real codec and parsed by the reference
+        from vlib.sim.group_world import make_scenario
+
+        return make_scenario(job, {"wire"})
     def run(ctx):
         clock = Clock()
         client = KafkaClient("h:9092", reactor=clock, enable_protocol_version_discovery=True)
@@ -152,6 +158,13 @@ def jobs(tier):
         {"mode": "error", "permute": False},
         {"mode": "silent", "permute": False},
     ]
+    q = tier == "quick"
+    out += [
+        {"mode": "group", "K": 5 if q else 7, "faults": 2, "leader": True, "stop": True},
+        {"mode": "group", "K": 5 if q else 7, "faults": 2, "leader": False, "stop": True},
+        {"mode": "group", "K": 4 if q else 6, "faults": 2, "leader": False, "stop": True, "prefix": "stable-commit-hb", "autocommit": True},
+        {"mode": "group", "K": 4 if q else 6, "faults": 2, "leader": False, "stop": True, "prefix": "rejoin-with-hb-pending", "autocommit": True},
+    ]
     return out
 
 
@@ -161,6 +174,7 @@ REQUIRED = [
     "fallback-to-version-0-when-discovery-fails",
     "matching-decoder-used-for-the-reply",
     "discovery-retried-three-times",
+    "state-machine-requests-conform-on-the-wire",
 ]
 
 
